@@ -20,6 +20,7 @@ EXPLANATION = (
     " Round 4: (9) the 256-colour gray ramp and cube step tables equal xterm's closed forms (8 + 10*i; 0, 95 + 40*(i-1))."
     ' Round 6: (13) SIB: every depth marker AttrSpec.__init__ puts into the packed value is reported by the colors property or cleared again in __init__ (fix 94a2129: a 2**24 spec without a 24-bit colour equals its rebuild).'
     ' Round 7: (11) the '#rrggbb' fold of the 88-colour parser keeps positions 0, 1, 3, 5 (the high digit of each channel), evaluated from its constant slices; (14) ACCUM: the flags collected over the parts of a foreground description are only OR-ed into inside the loop; (15) __repr__ writes colors= for every depth whose marker selects its own parser (fix 14f26b0).'
+    " Round 8: (2) table exceptions of the twin comparison are single-use; (16) ORDER: a depth-dependent colour description is returned only after the side's basic-colour flag was tested false."
 )
 NOT_DECIDED = "Nearest-entry correctness, idempotence of parse(describe(x)), RGB values - value-level facts; range-check raises in the describers depend on the stored value's range (covered only through the twin comparison)."
 ASSUMPTIONS = ["Range-check `raise ValueError(num)` in _color_desc_* is assumed unreachable for values the parsers produce (table entries with reason)."]
